@@ -461,13 +461,48 @@ fn spawn_kid() -> Kid {
 	Kid { child, stdin, stdout }
 }
 
+/// the request the child is working on: (pid, deadline). A watchdog thread kills a child that does not answer in time:
+/// "does not loop forever" is part of the property, and a parser that spins must become a reported failure (`hang`),
+/// not a check that never returns (seed C16-J: an iterator that yields the same error forever)
+static PENDING: Mutex<Option<(u32, std::time::Instant)>> = Mutex::new(None);
+static HUNG: std::sync::atomic::AtomicBool = std::sync::atomic::AtomicBool::new(false);
+static WATCHDOG: std::sync::Once = std::sync::Once::new();
+
+static HANGS: std::sync::atomic::AtomicUsize = std::sync::atomic::AtomicUsize::new(0);
+
+/// 30 s per request (`C16_HANG_SECS`); once three requests did not come back the verdict is in and the remaining requests
+/// get 5 s each, so that a parser that spins on a whole family of inputs does not cost half a minute per member
+fn hang_limit() -> std::time::Duration {
+	let base = std::env::var("C16_HANG_SECS").ok().and_then(|v| v.parse().ok()).unwrap_or(30);
+	std::time::Duration::from_secs(if HANGS.load(std::sync::atomic::Ordering::SeqCst) >= 3 { base.min(5) } else { base })
+}
+
+fn start_watchdog() {
+	WATCHDOG.call_once(|| {
+		std::thread::spawn(|| loop {
+			std::thread::sleep(std::time::Duration::from_millis(100));
+			let due = { let p = PENDING.lock().unwrap_or_else(|e| e.into_inner()); matches!(*p, Some((_, d)) if std::time::Instant::now() > d).then(|| p.map(|x| x.0)).flatten() };
+			if let Some(pid) = due {
+				HUNG.store(true, std::sync::atomic::Ordering::SeqCst);
+				HANGS.fetch_add(1, std::sync::atomic::Ordering::SeqCst);
+				let _ = Command::new("kill").arg("-9").arg(pid.to_string()).status();
+				*PENDING.lock().unwrap_or_else(|e| e.into_inner()) = None;
+			}
+		});
+	});
+}
+
 fn relay(line: &str) -> String {
+	start_watchdog();
 	let mut guard = KID.lock().unwrap_or_else(|e| e.into_inner());
 	if guard.is_none() { *guard = Some(spawn_kid()); }
 	let kid = guard.as_mut().expect("kid");
+	HUNG.store(false, std::sync::atomic::Ordering::SeqCst);
+	*PENDING.lock().unwrap_or_else(|e| e.into_inner()) = Some((kid.child.id(), std::time::Instant::now() + hang_limit()));
 	let sent = writeln!(kid.stdin, "{line}").and_then(|_| kid.stdin.flush());
 	let mut ans = String::new();
 	let got = if sent.is_ok() { kid.stdout.read_line(&mut ans).unwrap_or(0) } else { 0 };
+	*PENDING.lock().unwrap_or_else(|e| e.into_inner()) = None;
 	if got == 0 {
 		// the child died on this request
 		use std::os::unix::process::ExitStatusExt;
@@ -477,7 +512,8 @@ fn relay(line: &str) -> String {
 		if let Some(mut e) = kid.child.stderr.take() { let _ = e.read_to_string(&mut msg); }
 		*guard = None;
 		let sig = status.and_then(|s| s.signal());
-		let what = if msg.contains("overflowed its stack") || matches!(sig, Some(11) | Some(7)) { "stack".to_owned() }
+		let what = if HUNG.swap(false, std::sync::atomic::Ordering::SeqCst) { "hang".to_owned() }
+			else if msg.contains("overflowed its stack") || matches!(sig, Some(11) | Some(7)) { "stack".to_owned() }
 			else if msg.contains("memory allocation of") { "alloc".to_owned() }
 			else { match sig { Some(s) => format!("signal-{s}"), None => format!("exit-{:?}", status.and_then(|s| s.code())) } };
 		let is_oracle = line.starts_with("oracle-");
